@@ -88,26 +88,30 @@ type actor struct {
 
 // Reconcile records everything one reconcile observed and did.
 type Reconcile struct {
-	ID         int
-	Inc        int
-	Worker     string
-	Key        string
-	StartSeq   int
-	EndSeq     int
-	GotKey     bool
-	CacheRead  bool
-	CacheSet   *asv1.StatefulSet // what the set lister returned in sync (nil: not found)
-	CtlCalled  bool
-	CtlSet     *asv1.StatefulSet // handed to UpdateStatefulSet
-	Claimed    []*v1.Pod
-	CtlDone    bool
-	CtlErr     error
-	Calls      []*APICall
-	QueueOps   []string
-	Panic      any
-	PanicStack string
-	Crashed    bool
-	Finished   bool
+	ID                int
+	Inc               int
+	Worker            string
+	Key               string
+	StartSeq          int
+	EndSeq            int
+	GotKey            bool
+	CacheRead         bool
+	CacheSet          *asv1.StatefulSet // what the set lister returned in sync (nil: not found)
+	CtlCalled         bool
+	CtlCallIdx        int
+	CachePods         []*v1.Pod // what the pod lister returned to getPodsForStatefulSet
+	CachePodsRead     bool
+	ListerFaults      []string
+	CtlSet            *asv1.StatefulSet // handed to UpdateStatefulSet
+	Claimed           []*v1.Pod
+	CtlDone           bool
+	CtlErr            error
+	Calls             []*APICall
+	QueueOps          []string
+	Panic             any
+	PanicStack        string
+	Crashed           bool
+	Finished          bool
 	ConcurrentWorkers int
 }
 
@@ -162,23 +166,24 @@ type Sim struct {
 	driver  *actor
 	procs   []*actor
 
-	seq       int
-	stepNo    int
-	Trace     []string
-	Calls     []*APICall
-	Recs      []*Reconcile
-	recSeq    int
-	Counters  map[string]int
-	Viol      []Violation
-	Notes     []string
-	StateSet  map[uint64]struct{}
-	PairSet   map[uint64]struct{}
-	simStart  time.Time
+	seq         int
+	stepNo      int
+	Trace       []string
+	Calls       []*APICall
+	Recs        []*Reconcile
+	recSeq      int
+	Counters    map[string]int
+	Viol        []Violation
+	Notes       []string
+	StateSet    map[uint64]struct{}
+	PairSet     map[uint64]struct{}
+	simStart    time.Time
 	WatchSource func() watch.Interface
 
 	// per-handler-invocation recording for the C16 oracle
-	evCtx *eventCtx
-	evPending []*eventCtx
+	evCtx      *eventCtx
+	evPending  []*eventCtx
+	helperSeen map[string]bool
 
 	oracles *oracleState
 	quiet   bool // quiesce phase: no faults, deterministic
@@ -541,6 +546,7 @@ func (c *recControl) UpdateStatefulSet(set *asv1.StatefulSet, pods []*v1.Pod) er
 	a := c.sim.current
 	if a != nil && a.rec != nil {
 		a.rec.CtlCalled = true
+		a.rec.CtlCallIdx = len(a.rec.Calls)
 		a.rec.CtlSet = set.DeepCopy()
 		for _, p := range pods {
 			a.rec.Claimed = append(a.rec.Claimed, p.DeepCopy())
@@ -581,4 +587,15 @@ func sortedKeys[V any](m map[string]V) []string {
 	}
 	sort.Strings(out)
 	return out
+}
+
+func (s *Sim) observeCacheList(k Kind, items []interface{}) {
+	a := s.current
+	if k != KPod || a == nil || a.rec == nil || a.rec.CachePodsRead {
+		return
+	}
+	a.rec.CachePodsRead = true
+	for _, it := range items {
+		a.rec.CachePods = append(a.rec.CachePods, it.(*v1.Pod).DeepCopy())
+	}
 }
